@@ -156,6 +156,16 @@ func (c *c03Conv) nodes(m *d2ast.Map) string {
 			c.ok = false
 			return "[]"
 		}
+		if nb.IsBoardNode() {
+			c.ok = false
+			return "[]"
+		}
+		if len(k.Key.Path) == 1 {
+			if us, isU := k.Key.Path[0].Unbox().(*d2ast.UnquotedString); isU && len(us.Value) == 1 && us.Value[0].StringRaw != nil && c03BoardWord(strings.ToLower(*us.Value[0].StringRaw)) {
+				c.ok = false
+				return "[]"
+			}
+		}
 		gap := i > 0 && k.Range.Start.Line-prev.GetRange().End.Line > 1
 		var path []string
 		for _, sb := range k.Key.Path {
